@@ -192,6 +192,9 @@ def c06(tier):
         ("topics-subs", dict(whos='{"p1", "s:x"}', filters="GFilters3" if not thorough else "GFilters", names="GNames",
                              maxqos=2, qosreq="{0, 1}", payloads="{}", retqos="{}", withnil="FALSE"),
          [dict(mode="paths", depth=4 if not thorough else 4), dict(mode="cover"), dict(mode="random", walks=40, len=200, seed=core.seed())]),
+        ("topics-multi", dict(whos='{"p1", "p2", "s:x"}', filters="MFilters", names="MNames", maxqos=2, qosreq="{0, 1, 2}",
+                              payloads="{}", retqos="{}", withnil="FALSE"),
+         [dict(mode="paths", depth=4), dict(mode="cover"), dict(mode="random", walks=40, len=200, seed=core.seed())]),
         ("topics-ret", dict(whos='{"i:7"}', filters="RFilters", names="RNames", maxqos=1, qosreq="{2}",
                             payloads='{"x", "yy"}', retqos="{0, 2}", withnil="TRUE"),
          [dict(mode="paths", depth=3 if not thorough else 4), dict(mode="cover"), dict(mode="random", walks=40, len=200, seed=core.seed())]),
